@@ -218,6 +218,52 @@ def translation_validate(Q, cfile, work, k, seed):
     return res
 
 
+def real_replay(Q, ll, cfile, draws, workdir):
+    """E6: replay the counter-example on the REAL compiled code.  The schedule is taken from the native run of the generated C
+    (events per context), the harness IR is instrumented (engine/irinstr.py), compiled with clang -O0 + AddressSanitizer and
+    linked with the cooperative runtime engine/vp_rt.c.  Returns (True/False/None, detail); None = replay infrastructure failed."""
+    try:
+        import irinstr
+        gen = cfile[:-2] + '.rgen'
+        r = sh(['gcc', '-DVP_NATIVE', '-O0', '-w', '-I', os.path.join(ROOT, 'engine')] + list(Q.extra_flags) + [cfile, os.path.join(ROOT, 'engine', 'vp_native.c'), '-o', gen])
+        if r.returncode != 0: return None, 'generated C does not build: ' + r.stdout[-200:]
+        env = dict(os.environ, VP_NONDET=','.join(str(d) for d in draws))
+        g = subprocess.run([gen], stdout=subprocess.PIPE, stderr=subprocess.STDOUT, text=True, env=env, timeout=120)
+        items = []
+        for ln in g.stdout.split('\n'):
+            f = ln.split()
+            if f[:1] == ['CTX'] and len(f) >= 8: items.append(f"C {f[1]} {f[3]} {f[4]} {f[7]}")
+            elif f[:1] == ['SKIP'] and len(f) >= 3: items.append(f"S {f[1]} {f[2]}")
+        inst = cfile[:-2] + '.inst.ll'
+        open(inst, 'w').write(irinstr.instrument(open(ll).read()))
+        obj = cfile[:-2] + '.inst.o'
+        r = sh(['clang++-14', '-O0', '-g0', '-fsanitize=address', '-w', '-c', inst, '-o', obj])
+        if r.returncode != 0: return None, 'instrumented IR does not compile: ' + r.stdout[-300:]
+        rt = os.path.join(workdir, 'vp_rt.o')
+        if not os.path.exists(rt):
+            r = sh(['gcc', '-O0', '-g', '-w', '-fsanitize=address', '-I', os.path.join(ROOT, 'engine')] + list(Q.extra_flags) + ['-c', os.path.join(ROOT, 'engine', 'vp_rt.c'), '-o', rt])
+            if r.returncode != 0: return None, 'runtime does not build: ' + r.stdout[-300:]
+        exe = cfile[:-2] + '.real'
+        r = sh(['clang++-14', '-fsanitize=address', obj, rt, '-o', exe, '-rdynamic', '-ldl', '-lpthread'])
+        if r.returncode != 0: return None, 'link failed: ' + r.stdout[-300:]
+        threads = Q.q.get('threads', [])
+        args = [Q.q.get('setup') or '-'] + [f'{fn}:{t + 1}' for t, (tn, fn) in enumerate(threads)] + [Q.q.get('final') or '-']
+        if Q.q.get('seq'): return None, 'sequential entry points are replayed by the translation-validation driver, not by the scheduler runtime'
+        env = dict(os.environ, VP_NONDET=','.join(str(d) for d in draws), VP_SCHEDULE=';'.join(items), VP_SPUR=str(Q.q.get('opts', {}).get('spur', 0)),
+                   ASAN_OPTIONS='detect_leaks=0:abort_on_error=0')
+        p = subprocess.run([exe] + args, stdout=subprocess.PIPE, stderr=subprocess.PIPE, text=True, env=env, timeout=120)
+        fails = re.findall(r'ASSERT-FAIL id=(-?\d+) (.*)', p.stdout)
+        san = re.findall(r'(ERROR: AddressSanitizer: [\w-]+|SEGV)', p.stderr)
+        div = re.findall(r'RT-DIVERGENCE (.*)', p.stdout)
+        if fails or san: return True, '; '.join([f'id={i} {t}'[:80] for i, t in fails[:3]] + san[:2])
+        if div: return False, 'real-code run left the recorded schedule: ' + div[0]
+        return False, 'real-code run finished without failure: ' + (p.stdout.strip().split('\n')[-1] if p.stdout.strip() else p.stderr[-200:])
+    except subprocess.TimeoutExpired:
+        return None, 'real-code replay timed out'
+    except Exception as ex:
+        return None, f'real-code replay error: {type(ex).__name__}: {ex}'
+
+
 class Runner:
     def __init__(s, pid, tier, keep=False, only=None):
         s.pid, s.tier, s.keep, s.only = pid, tier, keep, only
@@ -442,6 +488,10 @@ def main():
                         print(f"BROKEN query={Q.name}: {rec['detail']} (cbmc said: {(f0_['description'] or '')[:80]})", file=sys.stderr)
                         evq.append(rec); continue
                     rep_note = why_
+                    if not Q.q.get('opts', {}).get('hb'):
+                        ok2_, why2_ = real_replay(Q, compile_ll(R.work, Q.cpp, Q.defines, Q.cflags), e['cfile'], sc_['draws'], R.work)
+                        rec['real_code_replay'] = dict(reproduced=ok2_, detail=why2_)
+                        rep_note += f" | real code (instrumented IR of the real headers, clang -O0 + ASan, same schedule): {'REPRODUCED' if ok2_ else ('not reproduced' if ok2_ is False else 'unavailable')}: {why2_}"
                 if r.get('unreachable'):
                     r['parsed']['failed'] = [dict(property='cover', description=f'required state (coverage mask {Q.must_cover}) is unreachable for every schedule inside the bound', trace=None)]
                 f0 = r['parsed']['failed'][0]
